@@ -49,10 +49,27 @@ structure Cfg where
   checkOperator : Bool
   /-- `Validate` rejects a target with delegation / unbonding / redelegation records -/
   checkTarget : Bool
+  /-- key family read by the already-migrated guard applied to the source / to the target ("" = no such guard) -/
+  recKeyFrom : String
+  recKeyTo : String
+  /-- `SetMigrateRecord` writes the record under the source, under the target, and the two direction flags -/
+  wRecFrom : Bool
+  wRecTo : Bool
+  wDirFrom : Bool
+  wDirTo : Bool
+  /-- the bank handler sends `GetAllBalances(from)` from the source to the target -/
+  bankAll : Bool
   deriving Repr, DecidableEq
 
 /-- the far-future bound that makes `NewPrefixUntilPairRange` cover every queue entry -/
 def farFuture : String := "time.Date(9999, 12, 31, 23, 59, 59, 0, time.UTC)"
+
+/-- key family read by the already-migrated guard `MigrateAccount` applies to `who` (resolved through the keeper's
+`Has…` methods) -/
+def guardKey (who : String) : String :=
+  match Gen.C14.recordChecks.find? (fun p => p.2 == who) with
+  | some p => (Gen.C14.recordPredicates.lookup p.1).getD ""
+  | none => ""
 
 def cfg : Cfg :=
   { rewriteDelIdx := Gen.C14.executeDeleteKeys.contains "GetDelegationsByValKey" &&
@@ -66,7 +83,14 @@ def cfg : Cfg :=
                      Gen.C14.stakingValidateChecks.contains "validator-to"
     checkTarget := Gen.C14.stakingValidateChecks.contains "delegations-to" &&
                    Gen.C14.stakingValidateChecks.contains "unbonding-to" &&
-                   Gen.C14.stakingValidateChecks.contains "redelegations-to" }
+                   Gen.C14.stakingValidateChecks.contains "redelegations-to"
+    recKeyFrom := guardKey "from"
+    recKeyTo := guardKey "to"
+    wRecFrom := Gen.C14.recordWrites.contains ("GetMigratedRecordKey", "from")
+    wRecTo := Gen.C14.recordWrites.contains ("GetMigratedRecordKey", "to")
+    wDirFrom := Gen.C14.recordWrites.contains ("GetMigratedDirectionFrom", "from")
+    wDirTo := Gen.C14.recordWrites.contains ("GetMigratedDirectionTo", "to")
+    bankAll := Gen.C14.bankAmountCall == "GetAllBalances(from)" && Gen.C14.bankSendArgs == "from,to.Bytes(),amount" }
 
 /-! ## state -/
 def bondedPool : Addr := 901
@@ -80,6 +104,16 @@ structure Proposal where
   depEnd : Time
   voteEnd : Time
   total : Nat
+  deriving Repr, DecidableEq, BEq
+
+/-- a vesting schedule (`x/auth/vesting`): 0 = delayed (everything at `stop`), 1 = continuous (linear from `start` to
+`stop`), 2 = periodic (`periods`: length, amount), 3 = permanently locked -/
+structure Vest where
+  kind : Nat
+  start : Time
+  stop : Time
+  orig : List (Denom × Nat)
+  periods : List (Nat × List (Denom × Nat))
   deriving Repr, DecidableEq, BEq
 
 structure State where
@@ -114,6 +148,9 @@ structure State where
   activeQ : List (Time × Nat) := []
   nextProp : Nat := 1
   recs : Store Addr (Bool × Addr) := []                           -- addr ↦ (is source?, other side)
+  dirFrom : List Addr := []                                       -- direction flag: migrated away
+  dirTo : List Addr := []                                         -- direction flag: migrated into
+  vest : Store Addr Vest := []                                    -- vesting schedules (accounts that only send / receive)
   deriving Repr
 
 /-! ## bank -/
@@ -124,6 +161,33 @@ def credit (b : Store (Addr × Denom) Nat) (a : Addr) (d : Denom) (n : Nat) := s
 def sendCoins (b : Store (Addr × Denom) Nat) (x y : Addr) (d : Denom) (n : Nat) : Option (Store (Addr × Denom) Nat) :=
   if balOf b x d < n then none else
   some (credit (setBal b x d (balOf b x d - n)) y d n)
+
+/-! ### vesting: locked coins -/
+def amountOf (l : List (Denom × Nat)) (d : Denom) : Nat := ((l.filter (fun p => p.1 == d)).map (·.2)).sum
+
+/-- periodic schedule: amounts of the periods that have fully elapsed at `now`, the first starting at `t` -/
+def vestedPeriods (now : Time) (d : Denom) : Time → List (Nat × List (Denom × Nat)) → Nat
+  | _, [] => 0
+  | t, (len, amt) :: rest => if t + len ≤ now then amountOf amt d + vestedPeriods now d (t + len) rest else 0
+
+def vestedOf (v : Vest) (now : Time) (d : Denom) : Nat :=
+  let o := amountOf v.orig d
+  match v.kind with
+  | 0 => if now ≥ v.stop then o else 0
+  | 1 => if now ≤ v.start then 0 else if now ≥ v.stop then o else o * (now - v.start) / (v.stop - v.start)
+  | 2 => if now ≤ v.start then 0 else if now ≥ v.stop then o else vestedPeriods now d v.start v.periods
+  | _ => 0
+
+/-- `LockedCoins` of an account at a time (0 for an account without schedule) -/
+def lockedAt (vs : Store Addr Vest) (now : Time) (a : Addr) (d : Denom) : Nat :=
+  match get vs a with
+  | none => 0
+  | some v => amountOf v.orig d - vestedOf v now d
+
+/-- `SendCoins` of a user account: `subUnlockedCoins` refuses to touch locked coins -/
+def sendUnlocked (b : Store (Addr × Denom) Nat) (locked : Nat) (x y : Addr) (d : Denom) (n : Nat) :
+    Option (Store (Addr × Denom) Nat) :=
+  if balOf b x d < locked + n then none else sendCoins b x y d n
 
 /-- all balances of an address, as (denom, amount) -/
 def balancesOf (b : Store (Addr × Denom) Nat) (a : Addr) : List (Denom × Nat) :=
@@ -349,9 +413,21 @@ def stakingValidate (c : Cfg) (s : State) (frm to : Addr) : Option MErr :=
     (s.dels.any (fun p => p.1.1 == to) || s.ubds.any (fun p => p.1.1 == to) || s.reds.any (fun p => p.1.1 == to))
   then some .toStaking else none
 
-/-- `BankMigrate.Execute`: send every balance -/
-def bankExecute (s : State) (frm to : Addr) : State :=
-  let b := (balancesOf s.bal frm).foldl
+def lockedOf (s : State) (a : Addr) (d : Denom) : Nat := lockedAt s.vest s.now a d
+
+/-- the amount `BankMigrate.Execute` sends: every balance (`GetAllBalances`), or — any other call is read as the
+spendable part — what is not locked -/
+def bankAmounts (c : Cfg) (s : State) (frm : Addr) : List (Denom × Nat) :=
+  if c.bankAll then balancesOf s.bal frm
+  else (balancesOf s.bal frm).map (fun p => (p.1, p.2 - lockedOf s frm p.1))
+
+/-- the single `SendCoins` of the bank handler fails as a whole when one of its coins is not spendable -/
+def bankBlocked (c : Cfg) (s : State) (frm : Addr) : Bool :=
+  (bankAmounts c s frm).any (fun p => p.2 > 0 && balOf s.bal frm p.1 < lockedOf s frm p.1 + p.2)
+
+/-- `BankMigrate.Execute`: send the amount, coin by coin -/
+def bankExecute (c : Cfg) (s : State) (frm to : Addr) : State :=
+  let b := (bankAmounts c s frm).foldl
     (fun b p => match sendCoins b frm to p.1 p.2 with | some b' => b' | none => b) s.bal
   { s with bal := b }
 
@@ -395,20 +471,33 @@ def stakingExecute (c : Cfg) (s : State) (frm to : Addr) : State :=
   let s2 := ((visible s1.ubds).filter (fun p => p.1.1 == frm)).foldl (moveUbd c frm to) s1
   ((visible s2.reds).filter (fun p => p.1.1 == frm)).foldl (moveRed c frm to) s2
 
-def setRecord (s : State) (frm to : Addr) : State :=
-  { s with recs := put (put s.recs frm (true, to)) to (false, frm) }
+/-- `Keeper.SetMigrateRecord`: the record under both addresses and the two direction flags, as far as they are written -/
+def setRecord (c : Cfg) (s : State) (frm to : Addr) : State :=
+  let r1 := if c.wRecFrom then put s.recs frm (true, to) else s.recs
+  let r2 := if c.wRecTo then put r1 to (false, frm) else r1
+  { s with recs := r2,
+           dirFrom := if c.wDirFrom then ins s.dirFrom frm else s.dirFrom,
+           dirTo := if c.wDirTo then ins s.dirTo to else s.dirTo }
+
+/-- an already-migrated guard reading the key family `key` -/
+def recGuard (key : String) (s : State) (a : Addr) : Bool :=
+  if key == "GetMigratedRecordKey" then (get s.recs a).isSome
+  else if key == "GetMigratedDirectionFrom" then s.dirFrom.contains a
+  else if key == "GetMigratedDirectionTo" then s.dirTo.contains a
+  else false
 
 /-- `MsgMigrateAccount.ValidateBasic` (signature check abstracted to `sigOk`) then `Keeper.MigrateAccount` -/
 def migrate (c : Cfg) (s : State) (frm to : Addr) (sigOk : Bool) : Except MErr State :=
   if frm == to then .error .same else
   if c.sigRequired && !sigOk then .error .sig else
-  if (get s.recs frm).isSome || (get s.recs to).isSome then .error .migrated else
+  if recGuard c.recKeyFrom s frm || recGuard c.recKeyTo s to then .error .migrated else
   if !(s.hasKey.contains frm) then .error .account else
   match stakingValidate c s frm to with
   | some e => .error e
   | none =>
     if govRefuses c s frm to then .error .gov else
-    .ok (setRecord (stakingExecute c (bankExecute s frm to) frm to) frm to)
+    if bankBlocked c s frm then .error .exec else
+    .ok (setRecord c (stakingExecute c (bankExecute c s frm to) frm to) frm to)
 
 /-! ### signature (opaque hash / recover) -/
 /-- bytes signed, in the order the code hashes them (`Gen.C14.signedFields`) -/
@@ -450,7 +539,7 @@ def errName : MErr → String
   | .validator => "err:validator" | .toStaking => "err:to-staking" | .gov => "err:gov" | .exec => "err:exec"
 
 def step (c : Cfg) (s : State) : Op → State × String
-  | .send a b d n => ofOpt s ((sendCoins s.bal a b d n).map fun bb => { s with bal := bb })
+  | .send a b d n => ofOpt s ((sendUnlocked s.bal (lockedOf s a d) a b d n).map fun bb => { s with bal := bb })
   | .mint a d n => ({ s with bal := credit s.bal a d n }, "ok")
   | .delegate d v amt rw => ofOpt s (delegate s d v amt rw)
   | .undelegate d v amt rw => ofOpt s (undelegate s d v amt rw)
